@@ -44,10 +44,10 @@ func ErrClass(err error) string {
 
 // Outcome of one call.
 type Outcome struct {
-	OK     bool
-	Class  string
-	Msg    string
-	Panic  bool
+	OK    bool
+	Class string
+	Msg   string
+	Panic bool
 }
 
 // Guard runs f, turning an error or a panic into an Outcome.
